@@ -73,7 +73,7 @@ def check(P, R):
             n_conv += 1
             R.ob('C12.a', fn or ofq, None, True, text=f'{text} [{cname}] -> converted by errors_map (4xx)', key_extra=cname)
             continue
-        if cname == 'ValueError' and 'CONTENT_LENGTH' in text:
+        if cname == 'ValueError' and ofq.endswith(':BodyMixin.content_length'):
             R.ob('C12.a', fn or ofq, None, True, text=f'{text} [{cname}] exempt: server-validated framing metadata', nontrivial=False)
             continue
         http = False
@@ -123,8 +123,12 @@ def check(P, R):
              why='a delivered field always holds the complete data of a part that was terminated by a delimiter')
     ii = P.func(f'{MP}:FieldStorage.iter_items')
     gi = ii.cfg
+    nexts = [T.assigned_name_of_call(c) for c in walk_shallow(ii.node) if isinstance(c, ast.Call) and dotted(c.func) == 'next' and len(c.args) == 2]
+    nexts = [x for x in nexts if x]
+    R.require(len(nexts) >= 3, 'iter_items: next(iter, None) pairs not found')
+    hname, dname = nexts[1], nexts[2]
     nd = [n for n in gi.nodes if n.kind == 'test' and isinstance(strip_not(n.ast)[0], ast.Name) and strip_not(n.ast)[1]
-          and strip_not(n.ast)[0].id == 'data']
+          and strip_not(n.ast)[0].id == dname]
     ok = False
     for n in nd:
         reach = gi.reachable_from(T.succ_by_label(n, 'true'))
@@ -133,7 +137,12 @@ def check(P, R):
          'a part whose data section is missing (truncated body) is delivered as a field')
     # field.read gets the data slice of the same pair
     calls = [c for c in walk_shallow(ii.node) if isinstance(c, ast.Call) and call_attr(c) == 'read' and len(c.args) >= 3]
-    ok = bool(calls) and src(calls[0].args[1]) == 'headers_slice' and src(calls[0].args[2]) == 'data_slice'
+    def _slice_of(var):
+        for st in walk_shallow(ii.node):
+            if isinstance(st, ast.Assign) and isinstance(st.targets[0], ast.Tuple) and len(st.targets[0].elts) == 2 and isinstance(st.value, ast.Name) and st.value.id == var:
+                return src(st.targets[0].elts[1])
+        return None
+    ok = bool(calls) and src(calls[0].args[1]) == _slice_of(hname) and src(calls[0].args[2]) == _slice_of(dname)
     R.ob('C12.c', ii, calls[0] if calls else ii.node, ok, text='field.read(src, headers_slice, data_slice)', detail='' if ok else
          'a field is not read from its own header/data sections')
 
@@ -148,13 +157,13 @@ def check(P, R):
     # chunk-size scan capped (C05.d cap)
     fc = P.func(f'{BM}:_iter_chunked')
     gc = fc.cfg
-    cap = [n for n in gc.nodes if n.kind == 'test' and 'buff_size' in names_loaded(n.ast) and 'read_len' in names_loaded(n.ast)]
+    inc = [x for x in walk_shallow(fc.node) if isinstance(x, ast.AugAssign) and isinstance(x.target, ast.Name) and isinstance(x.op, ast.Add) and is_const(x.value, 1)]
+    cnt = inc[0].target.id if inc else '?'
+    cap = [n for n in gc.nodes if n.kind == 'test' and 'buff_size' in names_loaded(n.ast) and cnt in names_loaded(n.ast)]
     ok = False
     for n in cap:
         reach = gc.reachable_from(T.succ_by_label(n, 'true'))
         ok = ok or gc.exit not in reach
-    inc = [x for x in walk_shallow(fc.node) if isinstance(x, ast.AugAssign) and isinstance(x.target, ast.Name) and x.target.id == 'read_len'
-           and isinstance(x.op, ast.Add)]
     R.ob('C12.d', fc, cap[0].ast if cap else fc.node, ok and bool(inc), text='size-line scan: read_len += 1, read_len > buff_size -> error', detail='' if ok and inc else
          'the chunk size line is scanned without bound')
     # _eat_data: the window start advances on every path round the loop
@@ -168,8 +177,10 @@ def check(P, R):
         # while True: the head is the first statement of the body
         first = T.entry_node_of(ge, lp.body[0])
         head = first
+    from . import c06 as _c06
+    er = _c06.eat_data_roles(P)
     adv = [ge.node_of_stmt(x)[0] for x in walk_shallow(lp) if isinstance(x, ast.AugAssign) and isinstance(x.target, ast.Name)
-           and x.target.id == 'start' and isinstance(x.op, ast.Add)]
+           and x.target.id == er['start'] and isinstance(x.op, ast.Add)]
     succs = [m for (m, lab) in head.succ if lab != 'exc']
     ok = bool(adv) and not any(ge.can_reach(s, head, avoid_nodes=adv) for s in succs if s is not head)
     R.ob('C12.d', ed, lp, ok, text='delimiter search: start += tlen on every path round the loop', detail='' if ok else
@@ -179,8 +190,11 @@ def check(P, R):
     R.require(lps, 'iter_markup: loop not found')
     lp = lps[0]
     first = T.entry_node_of(g, lp.body[0])
+    eat_calls = [c for c in walk_shallow(lp) if isinstance(c, ast.Call) and isinstance(c.func, ast.Name) and len(c.args) == 2 and src(c.args[0]) == im.params[1]]
+    R.require(eat_calls and isinstance(eat_calls[0].args[1], ast.Name), 'iter_markup: section eater call not found')
+    cursor = eat_calls[0].args[1].id
     adv = [g.node_of_stmt(x)[0] for x in walk_shallow(lp) if isinstance(x, ast.Assign) and any(
-        isinstance(t, ast.Name) and t.id == 'start_next_sec' for t in x.targets)]
+        isinstance(t, ast.Name) and t.id == cursor for t in x.targets)]
     ok = bool(adv) and not any(g.can_reach(s, first, avoid_nodes=adv) for (s, lab) in first.succ if lab != 'exc' and s is not first)
     R.ob('C12.d', im, lp, ok, text='section loop: start_next_sec re-assigned on every path round the loop', detail='' if ok else
          'a path round the section loop does not move the section cursor')
